@@ -2,12 +2,56 @@
 import ast
 
 from ..core import AnalysisError, norm_stmt
-from ..rules import (Fn, guards, guard_dominates, names_in, kwarg, is_none_test, spec_check,
+from ..rules import (Fn, guards, guard_dominates, names_in, kwarg, is_none_test, inventory,
                      subscript_stores, always_raises, raised_types)
 from ..cfg import target_names, root_name
 from .. import sym
 from ..sym import dotted
 from . import c08
+
+SMOOTH = ("SH = scipy.ndimage.filters.gaussian_filter(H, sigma=sigma, order=0, mode='constant', cval=0.0, truncate=6.0)")
+
+ITEMS = [
+    ('the two chosen channels', 'X = data[:, channels]'),
+    ('the histogram is taken of the two chosen channels over the given bins', 'H, XE, YE = np.histogram2d(X[:, 0], X[:, 1], bins=bins)'),
+    ('x edges only re-cast', 'XE = np.array(XE, dtype=float)'),
+    ('y edges only re-cast', 'YE = np.array(YE, dtype=float)'),
+    ('one index per event', 'EV = np.arange(X.shape[0])'),
+    ('axis 0: event -> bin index is digitize(value, x edges) - 1', 'XI = np.digitize(X[:, 0], bins=XE) - 1'),
+    ('axis 1: event -> bin index is digitize(value, y edges) - 1', 'YI = np.digitize(X[:, 1], bins=YE) - 1'),
+    ('axis 0: an event on the last x edge belongs to the last x bin', 'XI[X[:, 0] == XE[-1]] = len(XE) - 2'),
+    ('axis 1: an event on the last y edge belongs to the last y bin', 'YI[X[:, 1] == YE[-1]] = len(YE) - 2'),
+    ('an event is out of the grid iff either bin index is -1 or len(edges)-1',
+     'OM = (XI == -1) | (XI == len(XE) - 1) | (YI == -1) | (YI == len(YE) - 1)'),
+    ('out-of-grid events are removed from the event indices', 'EV = EV[~OM]'),
+    ('... from the x bin indices', 'XI = XI[~OM]'),
+    ('... from the y bin indices', 'YI = YI[~OM]'),
+    ('one list of events per bin', 'HE = np.empty_like(H, dtype=object)'),
+    ('each in-grid event is filed once in the bin given by its indices', 'for EI, XB, YB in zip(EV, XI, YI):'),
+    ('... filed', 'HE[XB, YB].append(EI)'),
+    ('target count is ceil(f * number of in-grid events)', 'N = int(np.ceil(gate_fraction * float(len(EV))))'),
+    ('a target of 0 keeps nothing', 'if N == 0:'),
+    ('smoothing with the documented Gaussian (sigma, zero padding, 6 sigma truncation)', SMOOTH),
+    ('normalised density', 'D = SH / np.sum(SH)'),
+    ('densities in C order', "VD = D.ravel(order='C')"),
+    ('counts in the same C order', "VH = H.ravel(order='C')"),
+    ('bins sorted by decreasing density', 'SIDX = np.argsort(VD)[::-1]'),
+    ('counts in that order', 'SVH = VH[SIDX]'),
+    ('cumulative counts', 'CS = np.cumsum(SVH)'),
+    ('cut at the first position where the cumulative count reaches the target', 'NIDX = np.nonzero(CS >= N)[0][0]'),
+    ('accepted bins: the prefix up to and including that position', 'ABI = SIDX[:NIDX + 1]'),
+    ('bin mask starts all False', 'bin_mask = np.zeros_like(H, dtype=bool)'),
+    ('... viewed in the same C order', "VBM = bin_mask.ravel(order='C')"),
+    ('... accepted bins marked', 'VBM[ABI] = True'),
+    ('... back to the histogram\'s shape', "bin_mask = VBM.reshape(H.shape, order='C')"),
+    ('kept events are exactly the events filed in the masked bins (whole bins)', 'ADI = HE[bin_mask]'),
+    ('... flattened', 'ADI = np.array([ITEM for SUB in ADI for ITEM in SUB], dtype=int)'),
+    ('the event mask is False everywhere', 'MASK = np.zeros(shape=data.shape[0], dtype=bool)'),
+    ('... except at the kept events', 'MASK[ADI] = True'),
+    ('gated data = input indexed by the mask', 'GD = data[MASK]'),
+]
+METAS = ['X', 'H', 'XE', 'YE', 'EV', 'XI', 'YI', 'OM', 'HE', 'EI', 'XB', 'YB', 'N', 'SH', 'D', 'VD', 'VH', 'SIDX', 'SVH', 'CS', 'NIDX',
+         'ABI', 'VBM', 'ADI', 'ITEM', 'SUB', 'MASK', 'GD']
 
 
 def run(cx):
@@ -15,179 +59,92 @@ def run(cx):
     data = fn.params[0]
     c08.guard_len2(cx, fn, None)
     c08.gateshape(cx, fn)
-    # the two-channel view
-    dch = [n for n in fn.cfg.nodes if n.kind == 'stmt' and isinstance(n.ast, ast.Assign)
-           and sym.norm(n.ast.value) == sym.norm('%s[:, channels]' % data)]
-    cx.need(len(dch) == 1, 'gate.density2d: channel view `data[:, channels]` not found')
-    X = dch[0].ast.targets[0].id
-    # fewer than two events refused
+    b = inventory(fn, 'FORMULA', ITEMS, METAS, rebind_ok=('bins', 'bin_mask'))
+    nm = {k: v[1] for k, v in b.items() if isinstance(v, tuple) and v[0] == 'var'}
+    need = ['X', 'H', 'XE', 'YE', 'EV', 'XI', 'YI', 'OM', 'N', 'MASK']
+    if not all(k in nm for k in need):
+        if not cx.violations:
+            raise AnalysisError('gate.density2d: statement inventory incomplete without a violation')
+        return
+    X, H, xe, ye, E, xi, yi, O, N, MK = [nm[k] for k in need]
+
+    def assign_of(name, pattern=None):
+        out = [s for s in fn.stmts(ast.Assign) if isinstance(s.targets[0], ast.Name) and s.targets[0].id == name]
+        if pattern is not None:
+            pat = sym.norm(pattern)
+            out = [s for s in out if sym.norm(s.value) == pat]
+        return out
+
+    # fewer than two events refused before binning
     gs = guards(fn, mentions=lambda t: sym.norm(t) in (sym.norm('%s.shape[0] <= 1' % X), sym.norm('%s.shape[0] < 2' % X),
                                                         sym.norm('len(%s) <= 1' % X), sym.norm('len(%s) < 2' % X)), exc=['ValueError'])
     h2d = fn.calls('np.histogram2d')
-    cx.need(len(h2d) == 1, 'gate.density2d: expected one np.histogram2d call')
-    ok = len(gs) == 1 and guard_dominates(fn, gs[0][0], gs[0][1], h2d[0])
+    ok = len(gs) == 1 and len(h2d) == 1 and guard_dominates(fn, gs[0][0], gs[0][1], h2d[0])
     fn.ob('GUARD', 'fewer than two events are refused before binning', ok, gs[0][0] if gs else fn.ast, key='two-events')
     # gate fraction outside [0, 1] refused before it is used
     gs = guards(fn, mentions=lambda t: names_in(t) == {'gate_fraction'}, exc=['ValueError'])
     uses = [n for n in fn.walk() if isinstance(n, ast.Name) and n.id == 'gate_fraction' and isinstance(n.ctx, ast.Load)
-            and not any(g[0].test is a or any(a is x for x in ast.walk(g[0].test)) for g in gs for a in [n])]
+            and not any(any(n is x for x in ast.walk(g[0].test)) for g in gs)]
     ok = len(gs) == 1 and not gs[0][1] and sym.norm(gs[0][0].test) == sym.norm('gate_fraction < 0 or gate_fraction > 1') \
         and bool(uses) and all(guard_dominates(fn, gs[0][0], False, u) for u in uses)
     fn.ob('GUARD', 'a gate fraction outside [0, 1] is refused before it enters the target count', ok, gs[0][0] if gs else fn.ast,
           detail='' if ok else 'refusal must be `gate_fraction < 0 or gate_fraction > 1` and dominate every use', key='fraction')
-    # histogram and edges
-    hst = fn.parent[id(h2d[0])]
-    cx.need(isinstance(hst, ast.Assign) and isinstance(hst.targets[0], ast.Tuple) and len(hst.targets[0].elts) == 3,
-            'gate.density2d: histogram2d result not unpacked into (H, xe, ye)')
-    H, xe0, ye0 = [t.id for t in hst.targets[0].elts]
-    ok = sym.norm(h2d[0]) == sym.norm('np.histogram2d(%s[:, 0], %s[:, 1], bins=bins)' % (X, X))
-    fn.ob('FORMULA', 'the histogram is taken of the two chosen channels over the given bins', ok, h2d[0], key='histogram')
-    xe, ye = xe0, ye0
-    # per-axis bin index: digitize - 1, right edge reconciled, and the outlier mask
-    axes = {}
-    for k, e in ((0, xe), (1, ye)):
-        cand = [st for st in fn.stmts(ast.Assign) if isinstance(st.targets[0], ast.Name)
-                and sym.norm(st.value) == sym.norm('np.digitize(%s[:, %d], bins=%s) - 1' % (X, k, e))]
-        cx.need(len(cand) == 1, 'gate.density2d: bin index of axis %d is not `np.digitize(...) - 1` over %s' % (k, e))
-        axes[k] = cand[0].targets[0].id
-        fn.ob('FORMULA', 'axis %d: event -> bin index is digitize(value, edges) - 1 over the histogram\'s own edges' % k, True,
-              cand[0], key='digitize-%d' % k)
-        rec = [st for st, t in subscript_stores(fn) if root_name(t) == axes[k]]
-        okr = len(rec) == 1 and sym.norm(rec[0].targets[0]) == sym.norm('%s[%s[:, %d] == %s[-1]]' % (axes[k], X, k, e)) \
-            and sym.norm(rec[0].value) == sym.norm('len(%s) - 2' % e)
-        fn.ob('FORMULA', 'axis %d: an event on the last edge belongs to the last bin (index len(edges)-2 of the same axis)' % k,
-              okr, rec[0] if rec else cand[0], detail='' if okr else 'reconciliation: %s' % (norm_stmt(rec[0]) if rec else 'missing'),
-              key='right-edge-%d' % k)
-    xi, yi = axes[0], axes[1]
-    om = [st for st in fn.stmts(ast.Assign) if isinstance(st.targets[0], ast.Name) and
-          sym.norm(st.value) == sym.norm('(%s == -1) | (%s == len(%s) - 1) | (%s == -1) | (%s == len(%s) - 1)' % (xi, xi, xe, yi, yi, ye))]
-    ok = len(om) == 1
-    fn.ob('FORMULA', 'an event is out of the grid iff either bin index is -1 or len(edges)-1', ok, om[0] if om else fn.ast,
-          detail='' if ok else 'outlier mask not of the documented form', key='outlier-mask')
-    cx.need(ok, 'gate.density2d: outlier mask not found')
-    O = om[0].targets[0].id
-    # event indices and both bin indices are filtered by the same mask, after reconciliation
-    ev = [st for st in fn.stmts(ast.Assign) if isinstance(st.targets[0], ast.Name) and
-          sym.norm(st.value) == sym.norm('np.arange(%s.shape[0])' % X)]
-    cx.need(len(ev) == 1, 'gate.density2d: event index array not found')
-    E = ev[0].targets[0].id
-    filt = {}
-    for v in (E, xi, yi):
-        f = [st for st in fn.stmts(ast.Assign) if isinstance(st.targets[0], ast.Name) and st.targets[0].id == v
-             and sym.norm(st.value) == sym.norm('%s[~%s]' % (v, O))]
-        okf = len(f) == 1 and f[0].lineno > om[0].lineno
-        filt[v] = f[0] if f else None
-        fn.ob('REACH', 'out-of-grid events are removed from %s' % v, okf, f[0] if f else om[0], key='filter-' + v)
-    # H_events filled from the filtered triples
+    # REACH: filtered arrays are the ones that fill the bins and enter the count; filters come after reconciliation
+    filt = {v: assign_of(v, '%s[~%s]' % (v, O)) for v in (E, xi, yi)}
+    om = assign_of(O)
+    recs = [st for st, t in subscript_stores(fn) if root_name(t) in (xi, yi)]
+    ok = all(len(f) == 1 for f in filt.values()) and len(om) == 1 and len(recs) == 2 \
+        and all(r.lineno < om[0].lineno for r in recs) and all(f[0].lineno > om[0].lineno for f in filt.values())
+    fn.ob('REACH', 'edge reconciliation precedes the outlier mask, and the mask precedes the three filters', ok, om[0] if om else fn.ast,
+          key='filter-order')
     fills = [f for f in fn.stmts(ast.For) if isinstance(f.iter, ast.Call) and dotted(f.iter.func) == 'zip'
              and [dotted(a) for a in f.iter.args] == [E, xi, yi]]
-    ok = len(fills) == 1
-    if ok:
-        f = fills[0]
-        t = [x.id for x in f.target.elts]
-        ok = len(f.body) == 1 and isinstance(f.body[0], ast.Expr) and \
-            sym.norm(f.body[0].value).__repr__().count('append') == 1 and \
-            all(filt[v] is not None and {d.id for d in fn.rd.reaching(fn.node(f), v)} == {fn.node(filt[v]).id} for v in (E, xi, yi))
-        HE = None
-        c = f.body[0].value if isinstance(f.body[0], ast.Expr) else None
-        if ok and isinstance(c, ast.Call) and isinstance(c.func, ast.Attribute) and isinstance(c.func.value, ast.Subscript):
-            HE = dotted(c.func.value.value)
-            ok = sym.norm(c) == sym.norm('%s[%s, %s].append(%s)' % (HE, t[1], t[2], t[0]))
-        else:
-            ok = False
-    fn.ob('REACH', 'each in-grid event is filed once in the bin given by its (reconciled, filtered) indices', ok,
-          fills[0] if fills else fn.ast, key='fill')
-    cx.need(ok, 'gate.density2d: bin filling loop changed shape')
-    # target count from the in-grid events only
-    ndef = [st for st in fn.stmts(ast.Assign) if isinstance(st.targets[0], ast.Name) and st.targets[0].id == 'n']
-    cx.need(len(ndef) == 1, 'gate.density2d: target count `n` not found')
-    okn = sym.norm(ndef[0].value) in (sym.norm('int(np.ceil(gate_fraction * float(len(%s))))' % E),
-                                      sym.norm('int(np.ceil(gate_fraction * len(%s)))' % E),
-                                      sym.norm('int(math.ceil(gate_fraction * len(%s)))' % E)) and \
-        {d.id for d in fn.rd.reaching(fn.node(ndef[0]), E)} == {fn.node(filt[E]).id}
-    fn.ob('FORMULA', 'target count is ceil(f * number of in-grid events)', okn, ndef[0],
-          detail='' if okn else sym.show(sym.norm(ndef[0].value)), key='target-count')
+    ok = len(fills) == 1 and all(len(filt[v]) == 1 and {d.id for d in fn.rd.reaching(fn.node(fills[0]), v)} == {fn.node(filt[v][0]).id}
+                                 for v in (E, xi, yi))
+    fn.ob('REACH', 'the bins are filled from the filtered (in-grid) events only', ok, fills[0] if fills else fn.ast, key='fill-filtered')
+    ndef = assign_of(N)
+    ok = len(ndef) == 1 and len(filt[E]) == 1 and {d.id for d in fn.rd.reaching(fn.node(ndef[0]), E)} == {fn.node(filt[E][0]).id}
+    fn.ob('REACH', 'the target count counts the filtered (in-grid) events only', ok, ndef[0] if ndef else fn.ast, key='count-filtered')
     # n == 0: nothing kept
-    z = [st for st in fn.stmts(ast.If) if sym.norm(st.test) == sym.norm('n == 0')]
+    z = [st for st in fn.stmts(ast.If) if sym.norm(st.test) == sym.norm('%s == 0' % N)]
     okz = len(z) == 1
     if okz:
-        b = z[0].body
-        a = {s.targets[0].id: s for s in b if isinstance(s, ast.Assign) and isinstance(s.targets[0], ast.Name)}
-        okz = 'mask' in a and sym.norm(a['mask'].value) in (sym.norm('np.zeros(shape=%s.shape[0], dtype=bool)' % X),
-                                                           sym.norm('np.zeros(shape=%s.shape[0], dtype=bool)' % data),
-                                                           sym.norm('np.zeros(%s.shape[0], dtype=bool)' % X))
+        a = {s.targets[0].id: s for s in z[0].body if isinstance(s, ast.Assign) and isinstance(s.targets[0], ast.Name)}
+        okz = MK in a and sym.norm(a[MK].value) in (sym.norm('np.zeros(shape=%s.shape[0], dtype=bool)' % X),
+                                                  sym.norm('np.zeros(shape=%s.shape[0], dtype=bool)' % data),
+                                                  sym.norm('np.zeros(%s.shape[0], dtype=bool)' % X))
         rr = [s for s in ast.walk(z[0]) if isinstance(s, ast.Return) and isinstance(s.value, ast.Call)]
         okz = okz and len(rr) == 1 and sym.norm(kwarg(rr[0].value, 'bin_mask')) == sym.norm('np.zeros_like(%s, dtype=bool)' % H) \
             and sym.norm(kwarg(rr[0].value, 'bin_edges')) == sym.norm('(%s, %s)' % (xe, ye))
-    fn.ob('FORMULA', 'a target count of 0 keeps no event and no bin', okz, z[0] if z else ndef[0], key='n-zero')
-    # smoothing, density order, cumulative cut
-    acc = [st for st in fn.stmts(ast.Assign) if isinstance(st.targets[0], ast.Name) and st.targets[0].id == 'accepted_bin_indices']
-    if len(acc) != 1:
-        acc = [st for st, t in subscript_stores(fn) if False]
-    cx.need(len(acc) == 1, 'gate.density2d: accepted bin indices not found')
-    sigma_smooth = ("scipy.ndimage.filters.gaussian_filter(%s, sigma=sigma, order=0, mode='constant', cval=0.0, truncate=6.0)" % H)
-    alt_smooth = ("scipy.ndimage.gaussian_filter(%s, sigma=sigma, order=0, mode='constant', cval=0.0, truncate=6.0)" % H)
-    okc = False
-    got = fn.nf(acc[0].value, at=acc[0], stop=(H, 'n'))
-    for sm in (sigma_smooth, alt_smooth):
-        D = '(%s / np.sum(%s))' % (sm, sm)
-        order = "np.argsort(%s.ravel(order='C'))[::-1]" % D
-        spec = "%s[:(np.nonzero(np.cumsum(%s.ravel(order='C')[%s]) >= n)[0][0] + 1)]" % (order, H, order)
-        if got == sym.norm(spec):
-            okc = True
-    fn.ob('FORMULA', 'accepted bins: bins sorted by decreasing smoothed density, cut at the first position where the cumulative event count reaches the target (inclusive)',
-          okc, acc[0], detail='' if okc else 'computes %s' % sym.show(got)[:600], key='cut')
-    # bin mask from accepted indices
-    bm = [st for st in fn.stmts(ast.Assign) if isinstance(st.targets[0], ast.Name) and st.targets[0].id == 'bin_mask']
-    vbm = [st for st, t in subscript_stores(fn) if sym.norm(t) == sym.norm('v_bin_mask[accepted_bin_indices]')]
-    okb = len(vbm) == 1 and sym.norm(vbm[0].value) == ('const', True)
-    vals = [sym.norm(st.value) for st in bm]
-    okb = okb and sym.norm('np.zeros_like(%s, dtype=bool)' % H) in vals and \
-        sym.norm("v_bin_mask.reshape(%s.shape, order='C')" % H) in vals
-    vb = [st for st in fn.stmts(ast.Assign) if isinstance(st.targets[0], ast.Name) and st.targets[0].id == 'v_bin_mask']
-    okb = okb and len(vb) == 1 and sym.norm(vb[0].value) == sym.norm("bin_mask.ravel(order='C')")
-    fn.ob('FORMULA', 'the bin mask marks exactly the accepted bins (same C-order linearisation as the sort)', okb,
-          vbm[0] if vbm else fn.ast, key='bin-mask')
-    # a given bin mask is used as is (replay path): computed only under `bin_mask is None`
+    fn.ob('FORMULA', 'a target count of 0 keeps no event and no bin', okz, z[0] if z else fn.ast, key='n-zero')
+    # a supplied bin mask is replayed unchanged: the density computation runs only under `bin_mask is None`
     blk = [st for st in fn.stmts(ast.If) if is_none_test(st.test, 'bin_mask')]
-    okp = len(blk) == 1 and all(fn.in_body_of(st, blk[0], 'body') for st in bm) and \
+    bm = assign_of('bin_mask')
+    okp = len(blk) == 1 and len(bm) == 2 and all(fn.in_body_of(st, blk[0], 'body') for st in bm) and \
         (not gs or fn.in_body_of(gs[0][0], blk[0], 'body'))
     fn.ob('REACH', 'a supplied bin mask is replayed unchanged; the density computation runs only without one', okp,
           blk[0] if blk else fn.ast, key='replay')
-    # final event mask: one construction reached by both paths
-    ad = [st for st in fn.stmts(ast.Assign) if isinstance(st.targets[0], ast.Name) and st.targets[0].id == 'accepted_data_indices']
-    oka = len(ad) == 2 and sym.norm(ad[0].value) == sym.norm('%s[bin_mask]' % HE) and \
-        sym.norm(ad[1].value) == sym.norm('np.array([item for sublist in accepted_data_indices for item in sublist], dtype=int)')
-    if blk and oka:
-        oka = not fn.in_body_of(ad[0], blk[0], 'body')
-    fn.ob('FORMULA', 'kept events are exactly the events filed in the masked bins (whole bins)', oka, ad[0] if ad else fn.ast,
-          key='accepted-events')
-    mk = [st for st in fn.stmts(ast.Assign) if isinstance(st.targets[0], ast.Name) and st.targets[0].id == 'mask'
-          and (not z or not fn.in_body_of(st, z[0], 'body'))]
-    ms = [st for st, t in subscript_stores(fn) if root_name(t) == 'mask']
-    okm = len(mk) == 1 and sym.norm(mk[0].value) in (sym.norm('np.zeros(shape=%s.shape[0], dtype=bool)' % data),
-                                                     sym.norm('np.zeros(%s.shape[0], dtype=bool)' % data)) \
-        and len(ms) == 1 and sym.norm(ms[0].targets[0]) == sym.norm('mask[accepted_data_indices]') \
-        and sym.norm(ms[0].value) == ('const', True)
-    fn.ob('FORMULA', 'the event mask is False everywhere except at the kept events', okm, mk[0] if mk else fn.ast, key='event-mask')
-    # returned edges are the edges used for binning
+    adi = nm.get('ADI')
+    if adi and blk:
+        ad = assign_of(adi)
+        ok = len(ad) == 2 and not any(fn.in_body_of(s, blk[0], 'body') for s in ad)
+        fn.ob('REACH', 'one construction of the event mask is shared by the gate and the replay path', ok, ad[0] if ad else fn.ast, key='shared-mask')
+    # returned edges are the edges used for binning; edges only re-cast
     for r in fn.stmts(ast.Return):
         if isinstance(r.value, ast.Call) and kwarg(r.value, 'bin_edges') is not None:
             okr = sym.norm(kwarg(r.value, 'bin_edges')) == sym.norm('(%s, %s)' % (xe, ye))
             fn.ob('REACH', 'returned bin edges are the edges the events were binned with', okr, r, key='edges-returned')
-    # xe / ye re-cast to float arrays only (same values)
     for e in (xe, ye):
-        re = [st for st in fn.stmts(ast.Assign) if isinstance(st.targets[0], ast.Name) and st.targets[0].id == e]
-        okc2 = all(sym.norm(st.value) == sym.norm('np.array(%s, dtype=float)' % e) for st in re)
-        fn.ob('REACH', 'edges %s are only re-cast, never recomputed' % e, okc2, re[0] if re else hst, key='edges-cast-' + e)
+        re_ = assign_of(e)
+        okc2 = all(sym.norm(st.value) == sym.norm('np.array(%s, dtype=float)' % e) for st in re_)
+        fn.ob('REACH', 'edges are only re-cast, never recomputed', okc2, re_[0] if re_ else fn.ast, key='edges-cast-' + ('x' if e == xe else 'y'))
     # caller's bins are never written
     st = [s for s, t in subscript_stores(fn) if root_name(t) == 'bins']
     okw = True
-    for s in st:
-        # allowed only after `bins = list(bins)` (a copy) dominates the store
+    for s_ in st:
         cp = [c for c in fn.stmts(ast.Assign) if isinstance(c.targets[0], ast.Name) and c.targets[0].id == 'bins'
               and sym.norm(c.value) in (sym.norm('list(bins)'), sym.norm('copy.copy(bins)'), sym.norm('bins[:]'), sym.norm('[bins[0], bins[1]]'))]
-        okw = okw and bool(cp) and any(fn.cfg.dominates(fn.node(c), fn.node(s)) for c in cp)
+        okw = okw and bool(cp) and any(fn.cfg.dominates(fn.node(c), fn.node(s_)) for c in cp)
     fn.ob('MUT', 'the caller\'s bin specification is not written (stores only after a local copy)', okw, st[0] if st else fn.ast,
           key='bins-untouched')
     # sample-derived bins: hist_bins of the right axis with the right scale
@@ -196,14 +153,12 @@ def run(cx):
     okh = pairs == sorted([('0', 'xscale'), ('1', 'yscale')] * 2) and all(dotted(c.func.value) == X for c in hb)
     fn.ob('FORMULA', 'sample-derived bins: axis 0 uses xscale, axis 1 uses yscale', okh, hb[0] if hb else fn.ast, detail=str(pairs),
           key='hist-bins-axes')
-    cx.floor('FORMULA', cx.rules.get('FORMULA', 0), 12, 'density2d formulas')
+    cx.floor('FORMULA', cx.rules.get('FORMULA', 0), 36, 'density2d formulas')
     cx.decided += [
         'refusals: other than two channels, fewer than two events, f outside [0,1] - each dominates the use it protects',
-        'event -> bin mapping: digitize-1 over the histogram\'s own edges, last-edge reconciliation per axis, outlier mask of the documented form',
-        'the same outlier mask filters event indices and both bin indices; bins are filled and the target is counted from the filtered arrays',
-        'target = ceil(f * in-grid events); 0 keeps nothing',
-        'accepted bins = prefix of the density-descending order up to the first cumulative count >= target (inclusive); smoothing call has the documented arguments',
-        'bin mask marks the accepted bins; kept events = events filed in masked bins; one mask construction shared by the gate and the replay path; returned edges = used edges',
+        'every step of the gate has the documented normal form up to renaming of locals: digitize-1 over the histogram\'s own edges, last-edge reconciliation per axis, outlier mask, filters, bin filling, target = ceil(f * in-grid events), Gaussian smoothing arguments, density order, cumulative cut (>=, inclusive prefix), bin mask, whole-bin event mask',
+        'the same outlier mask filters event indices and both bin indices, after reconciliation; bins are filled and the target is counted from the filtered arrays',
+        'a target of 0 keeps nothing; a supplied bin mask is replayed through the same event-mask construction; returned edges = used edges',
         'gated data = input indexed by the returned mask; the caller\'s bins are not written',
     ]
     cx.not_decided += ['numerical facts about argsort/cumsum/gaussian_filter (stability under ties, permutation invariance, monotonicity in f)']
